@@ -237,21 +237,51 @@ class Tourn(Part):
             DummySelector([]).fast_nondominated_sorting(pop)
             forced = None
         drawn = []
-        orig_sample, orig_choice = pyrandom.sample, pyrandom.choice
+        # the two candidates are observed at whatever public random API draws them (sample, choice, randrange, randint): the first two
+        # members / positions drawn are the candidates; in 'pair' cases the draws are forced to the prepared pair
+        saved = {k: getattr(pyrandom, k) for k in ("sample", "choice", "randrange", "randint")}
+
+        def take(member):
+            if len(drawn) < 2:
+                drawn.append(member)
 
         def sample(population, k, **kw):
-            if forced is not None and k == 2:
+            if forced is not None and k == 2 and not drawn:
                 drawn.extend(forced)
                 return list(forced)
-            out = orig_sample(population, k, **kw)
-            drawn.extend(out)
+            out = saved["sample"](population, k, **kw)
+            if k == 2 and not drawn and all(any(o is x for x in pop) for o in out):
+                drawn.extend(out)
             return out
-        pyrandom.sample = sample
+
+        def choice(seq):
+            if len(drawn) < 2 and len(seq) == len(pop) and all(a is b for a, b in zip(seq, pop)):
+                out = forced[len(drawn)] if forced is not None else saved["choice"](seq)
+                take(out)
+                return out
+            return saved["choice"](seq)
+
+        def randrange(*a, **kw):
+            stop = a[0] if len(a) == 1 else None
+            if len(drawn) < 2 and stop == len(pop) and not kw:
+                idx = next(i for i, x in enumerate(pop) if x is forced[len(drawn)]) if forced is not None else saved["randrange"](*a)
+                take(pop[idx])
+                return idx
+            return saved["randrange"](*a, **kw)
+
+        def randint(lo, hi):
+            if len(drawn) < 2 and lo == 0 and hi == len(pop) - 1:
+                idx = next(i for i, x in enumerate(pop) if x is forced[len(drawn)]) if forced is not None else saved["randint"](lo, hi)
+                take(pop[idx])
+                return idx
+            return saved["randint"](lo, hi)
+        pyrandom.sample, pyrandom.choice, pyrandom.randrange, pyrandom.randint = sample, choice, randrange, randint
         pyrandom.seed(case["cseed"])
         try:
             st, res = observe(sel.select, pop)
         finally:
-            pyrandom.sample = orig_sample
+            for k, v in saved.items():
+                setattr(pyrandom, k, v)
         if len(pop) == 1:
             return [{"ev": "tourn", "a": self.cand(pop[0], pop), "b": self.cand(pop[0], pop),
                      "res": "a" if (st == "ok" and res is pop[0]) else "other",
@@ -266,6 +296,8 @@ class Tourn(Part):
         a, b = drawn
         ev["a"], ev["b"] = self.cand(a, pop), self.cand(b, pop)
         ev["member"] = any(res is x for x in pop)
+        if ev["member"] and res is not a and res is not b:
+            raise Skip()        # a member, but not one of the inferred candidates: the draw went through a path the harness cannot observe
         ev["res"] = "a" if res is a else ("b" if res is b else "other")
         return [ev]
 
